@@ -27,6 +27,7 @@ type Op struct {
 	D  int    `json:"d"`
 	Id int    `json:"id"`
 	On bool   `json:"on"`
+	B  int    `json:"b"` // 1 = blind: do not read the state after this operation (reads fill lazy caches)
 }
 
 const (
@@ -438,7 +439,10 @@ func run(env *drive.Env) error {
 			for k, v := range res {
 				ev[k] = v
 			}
-			if res["panic"] == nil {
+			if res["panic"] == nil && op.B == 1 {
+				ev["blind"] = true
+				delete(ev, "gv")
+			} else if res["panic"] == nil {
 				o, perr := w.project()
 				if perr != "" {
 					ev["panic"] = "projection: " + perr
